@@ -214,6 +214,22 @@ func c04Values(r *eng.Run) {
 		}
 		count("1c:exact-tier cells", n)
 	})
+	// exponent fields of any length: leading zeros, and magnitudes far beyond int
+	{
+		n := 0
+		for _, z := range []int{1, 5, 18, 19, 20, 31, 32, 33, 64, 100, 400} {
+			for _, m := range []string{"1", "-1.5", "9007199254740993", "0"} {
+				for _, lit := range []string{m + "e" + strings.Repeat("0", z) + "5", m + "E-" + strings.Repeat("0", z) + "12", m + "e+" + strings.Repeat("0", z), "0e" + strings.Repeat("9", z), "-0.0e-" + strings.Repeat("9", z)} {
+					one(lit, "long-exponent")
+					n++
+				}
+				// huge negative exponent: zero; huge positive with non-zero mantissa: range error (by the oracle)
+				one(m+"e-"+strings.Repeat("9", z+3), "long-exponent")
+				n++
+			}
+		}
+		count("1g:long exponent fields", n)
+	}
 	// zeros: every spelling keeps the sign of zero
 	{
 		n := 0
